@@ -66,6 +66,10 @@ theorem grammar_of_grammarOK {i : Input} (h : grammarOK i = true) :
   simp only [grammarOK, Bool.and_eq_true, List.all_eq_true] at h
   exact specGrammar_of_specOK (h.2 b hb s hs)
 
+theorem bits_of_grammarOK {i : Input} (h : grammarOK i = true) : 0 < i.kind.bits := by
+  simp only [grammarOK, Bool.and_eq_true, decide_eq_true_eq] at h
+  exact h.1.2
+
 /-! ## insertion sort -/
 
 theorem insertBy_perm (key : Const → Int) (c : Const) (l : List Const) : (insertBy key c l).Perm (c :: l) := by
@@ -234,6 +238,7 @@ theorem find?_some_iff_mem {β : Type} [DecidableEq β] (f : Const → β) (l : 
 
 structure WFfacts (i : Input) : Prop where
   grammar : ∀ b ∈ i.blocks, ∀ s ∈ b, specGrammar i.T s
+  bits : 0 < i.kind.bits
   nonempty : i.decl ≠ []
   ndVals : (i.decl.map (·.val)).Nodup
   ndNames : (i.decl.map (fun c => trim i.T c.name)).Nodup
@@ -244,7 +249,7 @@ theorem WF.facts {i : Input} (h : WF i = true) : WFfacts i := by
   simp only [WF, Bool.and_eq_true, nodupOK, decide_eq_true_eq, Bool.not_eq_true', List.all_eq_true,
     List.isEmpty_eq_false_iff] at h
   obtain ⟨⟨⟨hg, hne⟩, ⟨hv, hn⟩, hnm⟩, hs⟩ := h
-  refine ⟨grammar_of_grammarOK hg, hne, hv, hn, ?_, valuesSmall_iff.mp hs⟩
+  refine ⟨grammar_of_grammarOK hg, bits_of_grammarOK hg, hne, hv, hn, ?_, valuesSmall_iff.mp hs⟩
   intro c hc
   have := hnm c hc
   intro he
